@@ -437,9 +437,9 @@ def monitor(ops, tr):
             nh_ok[d] = False
         if kind in ("C", "CN"):
             nh_ok[d] = True
-        if kind == "Y":
+        if kind == "Y" and not (res and res[0] == "nolist"):
             nh_ok[d] = nh_ok[op[2]]
-        if kind == "RT":
+        if kind == "RT" and not (res and res[0] == "nolist"):
             nh_ok[op[2]] = True
         for s, st in states.items():
             slots[s] = st
